@@ -69,11 +69,12 @@ Record mon := {
   m_conf : bool;                       (* the last worker call was answered "confirmed" and
                                           the handler has not yet taken notice *)
   m_stopped : bool;
+  m_busy : option Z;                   (* a Broadcast(tx) caller whose request the handler is serving *)
   m_ok : bool
 }.
 Definition m_init : mon :=
   {| m_pend := []; m_run := None; m_inflight := false; m_conf := false;
-     m_stopped := false; m_ok := true |}.
+     m_stopped := false; m_busy := None; m_ok := true |}.
 
 Definition ret_eqb (a b : ret) : bool :=
   match a, b with
@@ -85,13 +86,14 @@ Definition ret_eqb (a b : ret) : bool :=
 
 Definition flag (m : mon) (b : bool) : mon :=
   {| m_pend := m_pend m; m_run := m_run m; m_inflight := m_inflight m; m_conf := m_conf m;
-     m_stopped := m_stopped m; m_ok := m_ok m && b |}.
+     m_stopped := m_stopped m; m_busy := m_busy m; m_ok := m_ok m && b |}.
 Definition with_pend (m : mon) (l : list Z) : mon :=
   {| m_pend := l; m_run := m_run m; m_inflight := m_inflight m; m_conf := m_conf m;
-     m_stopped := m_stopped m; m_ok := m_ok m |}.
+     m_stopped := m_stopped m; m_busy := m_busy m; m_ok := m_ok m |}.
 
 Definition m_step (deps : deps_t) (m : mon) (x : ev * obs) : mon :=
   match x with
+  | (_, ONone) => m
   (* Broadcast: nil exactly for accepted / already-in-mempool, the mapped
      error otherwise, ErrBroadcasterStopped after Stop; only nil enters *)
   | (EBroadcast tx o, ORet t r) =>
@@ -111,7 +113,7 @@ Definition m_step (deps : deps_t) (m : mon) (x : ev * obs) : mon :=
     match m_run m with
     | None => {| m_pend := m_pend m; m_run := Some (m_pend m, []); m_inflight := false;
                  m_conf := false; m_stopped := m_stopped m;
-                 m_ok := m_ok m && negb (m_stopped m) |}
+                 m_busy := m_busy m; m_ok := m_ok m && negb (m_stopped m) |}
     | Some _ => flag m (negb (m_stopped m))
     end
   | (_, OSent tx) =>
@@ -121,17 +123,17 @@ Definition m_step (deps : deps_t) (m : mon) (x : ev * obs) : mon :=
                   && mem tx snapshot && negb (mem tx sent)
                   && forallb (fun p => implb (mem p snapshot) (mem p sent)) (parents deps tx) in
       {| m_pend := m_pend m; m_run := Some (snapshot, sent ++ [tx]); m_inflight := true;
-         m_conf := false; m_stopped := m_stopped m; m_ok := m_ok m && good |}
+         m_conf := false; m_stopped := m_stopped m; m_busy := m_busy m; m_ok := m_ok m && good |}
     | None => flag m false
     end
   | (EWRet o, OAns) =>
     {| m_pend := m_pend m; m_run := m_run m; m_inflight := false; m_conf := is_confirmed o;
-       m_stopped := m_stopped m; m_ok := m_ok m && m_inflight m |}
+       m_stopped := m_stopped m; m_busy := m_busy m; m_ok := m_ok m && m_inflight m |}
   | (_, OAns) => flag m false
   | (_, OHand tx) =>
     {| m_pend := remove tx (m_pend m); m_run := m_run m; m_inflight := m_inflight m;
        m_conf := false; m_stopped := m_stopped m;
-       m_ok := m_ok m && negb (m_stopped m) && m_conf m &&
+       m_busy := m_busy m; m_ok := m_ok m && negb (m_stopped m) && m_conf m &&
                match m_run m with
                | Some (_, sent) => Z.eqb (last sent (-1)) tx && negb (length sent =? 0)%nat
                | None => false
@@ -141,15 +143,40 @@ Definition m_step (deps : deps_t) (m : mon) (x : ev * obs) : mon :=
     | Some (snapshot, sent) =>
       {| m_pend := m_pend m; m_run := None; m_inflight := false; m_conf := false;
          m_stopped := m_stopped m;
-         m_ok := m_ok m && negb (m_inflight m)
+         m_busy := m_busy m; m_ok := m_ok m && negb (m_inflight m)
                  && (m_stopped m || (negb (m_conf m) && (length sent =? length snapshot)%nat)) |}
     | None => flag m false
     end
   | (_, OStop) =>
     {| m_pend := m_pend m; m_run := m_run m; m_inflight := m_inflight m; m_conf := m_conf m;
-       m_stopped := true; m_ok := m_ok m |}
-  | (_, ONone) => m
-  | (_, ORet _ _) | (_, OConfd _) | (_, OConfQuit) => flag m false
+       m_stopped := true; m_busy := m_busy m; m_ok := m_ok m |}
+  (* a Broadcast request whose cfg.Broadcast call is held open *)
+  | (EBcStart tx, OBcHeld t) =>
+    {| m_pend := m_pend m; m_run := m_run m; m_inflight := m_inflight m; m_conf := m_conf m;
+       m_stopped := m_stopped m; m_busy := Some t;
+       m_ok := m_ok m && Z.eqb t tx && negb (m_stopped m) &&
+               match m_busy m with None => true | Some _ => false end |}
+  | (EBcStart tx, ORet t r) => flag m (Z.eqb t tx && ret_eqb r RStopped && m_stopped m)
+  | (EBcRet o, ORet t r) =>
+    let good := match m_busy m with Some b => Z.eqb b t | None => false end && negb (m_stopped m)
+                && ret_eqb r (if accepted o then RNil else RErr o) in
+    {| m_pend := match r with RNil => add t (m_pend m) | _ => m_pend m end;
+       m_run := m_run m; m_inflight := m_inflight m; m_conf := m_conf m;
+       m_stopped := m_stopped m; m_busy := None; m_ok := m_ok m && good |}
+  (* Stop while the call is open releases that caller ... *)
+  | (EStop, OStopBc t) =>
+    {| m_pend := m_pend m; m_run := m_run m; m_inflight := m_inflight m; m_conf := m_conf m;
+       m_stopped := true; m_busy := m_busy m;
+       m_ok := m_ok m && negb (m_stopped m) &&
+               match m_busy m with Some b => Z.eqb b t | None => false end |}
+  (* ... and the handler's reply afterwards is nobody's concern *)
+  | (EBcRet _, OAnsH) =>
+    {| m_pend := m_pend m; m_run := m_run m; m_inflight := m_inflight m; m_conf := m_conf m;
+       m_stopped := m_stopped m; m_busy := None;
+       m_ok := m_ok m && m_stopped m &&
+               match m_busy m with Some _ => true | None => false end |}
+  | (_, ORet _ _) | (_, OConfd _) | (_, OConfQuit) | (_, OBcHeld _) | (_, OStopBc _) | (_, OAnsH) =>
+    flag m false
   end.
 
 Definition m_run_all (deps : deps_t) (tr : trace_t) : mon := fold_left (m_step deps) tr m_init.
